@@ -105,6 +105,14 @@ def str_method(E, m, args, kwargs):
             E.ghost.setdefault('split_of', {})[nm] = (s, sep)
             return E.alloc(HList([], base=sq))
         raise Unsupported('str.split()')
+    if m in ('rsplit', 'splitlines', 'partition', 'rpartition') or (m == 'split' and len(rest) != 1):
+        # pieces of the string: an abstract list of strings about which nothing is known
+        nm = E.fresh('pieces')
+        sq = VSeq(nm, E.fresh_int('n' + nm))
+        E.assume(sq.length >= 1)
+        E.lib_used.add('str.%s: a list of at least one string (contents not modelled)' % m)
+        E.ghost.setdefault('str_pieces', set()).add(nm)
+        return E.alloc(HList([], base=sq))
     if m == 'join':
         seq = rest[0]
         if isinstance(seq, VRef) and isinstance(E.heap[seq.addr], HList) and E.heap[seq.addr].base is not None:
